@@ -90,8 +90,7 @@ def Fifo.run {α : Type} (cap B : Nat) (cyclic : Bool) :
     Fifo α → List (Op α Unit) → List (Obs α) × Fifo α
   | f, [] => ([], f)
   | f, op :: ops =>
-    let (o, f') := f.step cap B cyclic op
-    let (os, f'') := Fifo.run cap B cyclic f' ops
-    (o :: os, f'')
+    ((f.step cap B cyclic op).1 :: (Fifo.run cap B cyclic (f.step cap B cyclic op).2 ops).1,
+     (Fifo.run cap B cyclic (f.step cap B cyclic op).2 ops).2)
 
 end Brax.C17
